@@ -41,11 +41,11 @@ POST = [("C13-one-import-added", "ADDED_COUNT(imports) == 1"),
         ("C13-alias-is-an-identifier", "ALIAS_IS_IDENTIFIER(ADDED_LINE(imports))")]
 
 CONTRACTS = _n.CONTRACTS + [
-    FN(M + "reference_sibling", types={"py_type": "model:typename"}, returns="str",
+    FN(M + "reference_sibling", inline_at_calls=True, types={"py_type": "model:typename"}, returns="str",
        ensures=[("C13-same-package-reference", "REF_IS_QUOTED_TYPE(result, py_type)")], top=["C13-same-package-reference"], props=["C13"]),
-    FN(M + "reference_descendent", types=T, returns="str", variants=DESC, ensures=POST, top=[p[0] for p in POST], props=["C13"]),
-    FN(M + "reference_cousin", types=T, returns="str", variants=COUSIN, ensures=POST, top=[p[0] for p in POST], props=["C13"]),
-    FN(M + "reference_ancestor", types=T, returns="str", variants=ANC,
+    FN(M + "reference_descendent", inline_at_calls=True, types=T, returns="str", variants=DESC, ensures=POST, top=[p[0] for p in POST], props=["C13"]),
+    FN(M + "reference_cousin", inline_at_calls=True, types=T, returns="str", variants=COUSIN, ensures=POST, top=[p[0] for p in POST], props=["C13"]),
+    FN(M + "reference_ancestor", inline_at_calls=True, types=T, returns="str", variants=ANC,
        ensures=[("C13-one-import-added", "ADDED_COUNT(imports) == 1"),
                 ("C13-import-resolves-to-the-target", "LINE_RESOLVES_TO_MODULE(ADDED_LINE(imports), current_package, py_package)"
                                                       " if len(py_package) > 0 else LINE_RESOLVES_TO_CLASS(ADDED_LINE(imports), current_package, py_package, py_type)"),
@@ -53,7 +53,7 @@ CONTRACTS = _n.CONTRACTS + [
                                                        " if len(py_package) > 0 else REF_IS_ALIAS(result, ADDED_LINE(imports), py_type)"),
                 ("C13-alias-is-an-identifier", "ALIAS_IS_IDENTIFIER(ADDED_LINE(imports))")],
        top=["C13-import-resolves-to-the-target", "C13-reference-uses-the-bound-alias"], props=["C13"]),
-    FN(M + "reference_absolute", types={"imports": "model:strset", "py_package": "model:strlist", "py_type": "model:typename"},
+    FN(M + "reference_absolute", inline_at_calls=True, types={"imports": "model:strset", "py_package": "model:strlist", "py_type": "model:typename"},
        returns="str", variants=ABS,
        ensures=[("C13-one-import-added", "ADDED_COUNT(imports) == 1"),
                 ("C13-import-names-the-absolute-module", "LINE_RESOLVES_TO_MODULE(ADDED_LINE(imports), py_package, py_package)"),
